@@ -87,6 +87,9 @@ GARBAGE = [
     ("interior-overrun", lambda r: _tlv(0x30, _tlv(2, b"\x01") + bytes([0x77, 0x05, 0x80, 0x01]))),
     ("zero-length-id", lambda r: _tlv(0x30, _tlv(2, b"") + _tlv(0x42, b""))),
     ("missing-op", lambda r: _tlv(0x30, _tlv(2, b"\x05"))),
+    # an envelope with no components at all, its zero length in short and in long form: a complete unit (the outer length is
+    # satisfied by no further octet), typically the last octets delivered
+    ("empty-envelope", lambda r: r.choice((b"\x30\x00", b"\x30\x81\x00", b"\x30\x82\x00\x00", b"\x30\x84\x00\x00\x00\x00"))),
     ("paged-control-no-value", lambda r: _tlv(0x30, _tlv(2, b"\x01") + _tlv(0x77, _tlv(0x80, b"1.2")) + _tlv(0xA0, _tlv(0x30, _tlv(4, b"1.2.840.113556.1.4.319"))))),
     ("indefinite-length", lambda r: b"\x30\x80\x02\x01\x01\x00\x00"),
     ("bad-utf8", lambda r: _tlv(0x30, _tlv(2, b"\x01") + _tlv(0x77, _tlv(0x80, b"\xff\xfe")))),
